@@ -149,15 +149,17 @@ static const double invfactorial[35] = {1., 1., 1./2., 1./6., 1./24., 1./120., 1
 
 // Vector constants
 static __m512d invfactorial512[35];
-static __m512d gr_prefac;
-static __m512d gr_prefac2;
 static __m512d half;
 static __m512d one;
 static __m512d two;
 static __m512d five;
 static __m512d sixteen;
 static __m512d twenty;
-static __m512d _M;
+// Constants which depend on the masses of one simulation. Each thread has its own set and remembers which simulation it belongs to.
+static __thread __m512d gr_prefac;
+static __thread __m512d gr_prefac2;
+static __thread __m512d _M;
+static __thread const struct reb_simulation* constants_owner = NULL;
 static __m512i so2; // cross lane permutations
 static __m512i so1; 
 
@@ -877,6 +879,7 @@ void static recalculate_constants(struct reb_simulation* r){
     }
     gr_prefac = _mm512_loadu_pd(&_gr_prefac);
     gr_prefac2 = _mm512_loadu_pd(&_gr_prefac2);
+    constants_owner = r;
     ri_whfast512->recalculate_constants = 0;
 
 }
@@ -954,7 +957,7 @@ void reb_integrator_whfast512_part1(struct reb_simulation* const r){
         r->gravity = REB_GRAVITY_NONE; // WHFast512 uses its own gravity routine.
     }
 
-    if (ri_whfast512->recalculate_constants){
+    if (ri_whfast512->recalculate_constants || constants_owner != r){
         recalculate_constants(r);
     } 
 
@@ -1013,8 +1016,8 @@ void reb_integrator_whfast512_synchronize(struct reb_simulation* const r){
         const unsigned int N_systems = ri_whfast512->N_systems;
         struct reb_particle_avx512* sync_pj = NULL;
         struct reb_particle sync_pj0[4];
-        if (ri_whfast512->recalculate_constants){ 
-            // Needed if no step has ever been done before (like SA)
+        if (ri_whfast512->recalculate_constants || constants_owner != r){ 
+            // Needed if no step has ever been done before (like SA) or if another simulation was advanced in between
             recalculate_constants(r);
         } 
         if (ri_whfast512->keep_unsynchronized){
